@@ -316,6 +316,7 @@ func RunPlan(p Plan) *Result {
 	members := c.Members(voters)
 	for _, h := range c.Hosts {
 		h.Mon.OnSnapshotRecord = rec.SnapshotCreated
+		h.Mon.OnSnapshotInstalled = rec.SnapshotInstalled
 		h.Mon.OnViolation = res.violate
 		if err := h.Start(); err != nil {
 			res.violate("harness-nodehost-start-failed", "%v", err)
@@ -1056,6 +1057,35 @@ func (res *Result) CheckStreams() {
 							name, m, best, imgs, j, cmd)
 						break
 					}
+				}
+			}
+		}
+	}
+	// the same for snapshots received from another replica: the image handed to
+	// RecoverFromSnapshot carries the sender's applied index A, raft accepted the
+	// snapshot as index M (all kinds, streamed snapshots of on-disk state machines included)
+	for name, installed := range res.Rec.Installed {
+		recov := res.Rec.RecoveredBy[name]
+		if len(recov) == 0 {
+			continue // accepted by raft but not (yet) applied by the state machine
+		}
+		for _, m := range installed {
+			var best uint64
+			found := false
+			for _, a := range recov {
+				if a <= m && a >= best {
+					best, found = a, true
+				}
+			}
+			if !found {
+				continue
+			}
+			for j := best + 1; j <= m; j++ {
+				if cmd, ok := byIndex[j]; ok {
+					res.violateLocked("installed-snapshot-content-not-at-snapshot-index",
+						"replica %s accepted a snapshot with index %d; the newest image it recovered from at or below that index has applied index %d (images %v), but entry %d (%q) is a user entry that the replica will never apply",
+						name, m, best, recov, j, cmd)
+					break
 				}
 			}
 		}
